@@ -5,6 +5,7 @@ import rules_layer
 import rules_guard
 import rules_orphan
 import rules_own
+import rules_ct
 
 
 class Context:
@@ -64,6 +65,17 @@ PROPS = {
         "level_text": "exact static rule check: ownership typing of every node_handle local/parameter in the armed files (all template instantiations), all non-throwing paths; decides the link/unlink discipline, not run-time counts",
         "design_ref": "DESIGN.md §2.1, §3 C06",
         "level_note": "trusts clang 14 CFGs, the ownership summary table in tool/msa/own.cc and the slot-level primitives createReducedNode/deleteNode",
+    },
+    "C07": {
+        "title": "Compute tables are transparent: cached answers equal recomputed answers",
+        "rules": [on_program(r) for r in rules_ct.RULES] + [callers_for("C07"), on_program(rules_layer.rule_cache_before_rewrite)],
+        "explanation": STRUCTURAL + ". C07: a handle is recycled only at cache count zero (including the tail collapse of the handle array); a hit is returned only after the dead-entry scan said alive; "
+                       "every NODE item is cache-counted on add and un-counted on delete (same sections), and consulted by the dead/stale scans; reordering clears the tables first.",
+        "assumptions": ["that the key contains every input the result depends on is not decided (non-interference)", "equality of cached and recomputed answers as such is not decided"],
+        "technique": "guard-edge dominance and must-pass-through rules over clang CFGs of node_headers and all ct_tmpl instantiations; flag-aware path search; who-may-call tables",
+        "level_text": "exact static rule check over lastUnlink/lastUncache/recycleNodeHandle/uncacheNode/unlinkNode and every instantiation of ct_tmpl::{find,isDead,isStale,addEntry,result2entry,deleteEntry}; decides the recycle gate, dead-before-hit and count-symmetry clauses",
+        "design_ref": "DESIGN.md §2.3, §3 C07",
+        "level_note": "trusts clang 14 CFGs; local bool flags (equal/remove) are tracked only when assigned literals or call results",
     },
     "C13": {
         "title": "Variable reordering preserves every function and every held edge",
